@@ -11,7 +11,7 @@ from vlib.sh.common import HI, LO, TWIN, L, dump, nt, same_fast, tick
 
 # attribute / function names, including names that mean something to Python's own ast objects
 NAMES = ["pt", "value", "elts", "keys", "id", "attr", "func", "args", "slice", "body", "n", "s", "lineno", "_fields", "ctx"]
-STRS = ["k", "a b", "b", "class"]
+STRS = ["k", "a b", "b", "class", "\u00aa"]
 NFORMS = 13
 NLEAF = 7
 OPS = ["Select", "SelectMany", "Where"]
@@ -300,11 +300,13 @@ def check(op, picks, k, kb, s, idx, npool=6, full_leaves=True):
     # digit, otherwise CrossHair enumerates its digits; everywhere else it is unbounded
     if op == 2 or picks[0] == 10 or picks[1] == 10:
         k = kb
-        t = ""
-        for j, cand in enumerate(STRS):
-            if s == cand:
-                t = cand
-        s = t       # a string the message may render: one of a small table ('' when the symbolic string is none of them)
+    # dictionary keys / string constants come from a small table of interesting strings (a fully symbolic key is realised character by
+    # character inside dataclasses.make_dataclass and in refusal messages); '' when the symbolic string is none of the entries
+    t = ""
+    for j, cand in enumerate(STRS):
+        if s == cand:
+            t = cand
+    s = t
     lam, fl, ch = run_one(op, picks, k, s, idx, npool, full_leaves)
     if lam is None:
         return ""
@@ -354,19 +356,19 @@ QUICK_CHILDREN = [0, 1, 4, 7, 8, 9, 10, 12]
 
 
 def decode_quick(code):
-    "0..103: Select, root = code // 8, child = QUICK_CHILDREN[code % 8]; 104..129: SelectMany / Where with the 13 roots over a leaf"
-    for c in range(max(LO, 0), min(HI, 130)):
+    "0..103: Select, root = code // 8, child = QUICK_CHILDREN[code % 8]; 104..116: Where with the 13 roots over a leaf"
+    for c in range(max(LO, 0), min(HI, 117)):
         if code == c:
             if c < 104:
                 return 0, c // 8, QUICK_CHILDREN[c % 8]
-            return 1 + (c - 104) // 13, (c - 104) % 13, 0
+            return 2, (c - 104) % 13, 0
     return -1, -1, -1
 
 
 def c10(code: int, c3: int, c4: int, c5: int, c6: int, c7: int, c8: int, c9: int, k: int, kb: int, s: str, idx: int) -> str:
     """
-    pre: LO <= code < HI and 0 <= code < 130 and -9 <= kb <= 9
-    pre: 0 <= c3 <= 7 and 0 <= c4 <= 7 and 0 <= c5 <= 7 and 0 <= c6 <= 7 and 0 <= c7 <= 7 and 0 <= c8 <= 7 and 0 <= c9 <= 7
+    pre: LO <= code < HI and 0 <= code < 117 and -9 <= kb <= 9
+    pre: 0 <= c3 <= 6 and 0 <= c4 <= 6 and 0 <= c5 <= 6 and 0 <= c6 <= 6 and 0 <= c7 <= 6 and 0 <= c8 <= 3 and 0 <= c9 <= 3
     pre: len(s) <= 2 and -3 <= idx <= 3
     post: (_ == '') != TWIN
     """
